@@ -4,8 +4,12 @@ from common import *  # noqa
 import ctx_ops
 
 LEVEL = "proof"
-LEAN_MODULES = ["Props.C38"]
+LEAN_MODULES = ["Props.C38", "Props.C38PC"]
 ASSUMPTIONS = [
+    "Props/C38PC.lean is about MpModel/WorldPC.lean (World.lean plus one private-cache component per context object; clone() "
+    "constructs EMPTY private caches): observed on every run by comparing the private state (containers of the object, of its "
+    "quadrature rules, of its memoize closures) of a clone, taken after the parent has run every table entry measured to write "
+    "private state, with that of a newly constructed context; private state kept elsewhere (e.g. in a C extension) is not seen",
     "the theorems are about the world model MpModel/World.lean (one settings cell per context object, shared caches); "
     "that the running objects have this shape is not proved but observed on every run: identity of the precision cells, "
     "number classes and _ctxdata lists of mp, three clones, iv, fp and a second iv/fp, and the settings of EVERY context "
@@ -17,9 +21,16 @@ ASSUMPTIONS = [
     "evaluation order (same module-level cache history); a difference explained by per-context cache history "
     "(projection reference) is reported as history_dependent, not as a leak",
     "function coverage of the value comparison is the table ctx_ops.FUNS (elementary functions, constants, conversions, "
-    "printing, gamma/erf/zeta/Bessel/hypergeometric, matrices, quadrature, nsum/diff/findroot, and the functions whose "
+    "printing, gamma/erf/zeta/Bessel/Airy/hypergeometric, matrices, quadrature, nsum/diff/findroot, and the functions whose "
     "implementation keeps state outside libmp); functions outside the table are covered only by the structural scan of "
     "shared mutable state (mutable default arguments, class-level containers, attributes shared by identity)",
+    "cross-links: every source line that dereferences ctx._mp/_fp/_iv (ast scan of the tree under test) is executed by a table "
+    "entry from a context of another kind (line coverage measured on every run; an uncovered, unclassified line is a broken "
+    "obligation); each such entry is evaluated from fp, mp and a clone while all other contexts hold non-default settings",
+    "per-context caches: which table entries write state private to the evaluating context is measured (fingerprints of the "
+    "containers of the context object, its quadrature rules and its memoize closures before/after one evaluation); each of "
+    "them is run through parent-evaluates / clone() / parent-changes-precision / clone-evaluates programs; per-context state "
+    "written only by functions outside the table is not exercised",
 ]
 
 # every function of the package with a mutable default argument is state shared by all contexts; each one is classified
@@ -46,6 +57,12 @@ MUTABLE_DEFAULTS = {
 SHARED_ATTR_OK = lambda k: k in ("_mpq", "mpq") or k.startswith("mpq_")   # the immutable exact-rational class and constants
 LINKS = ("_mp", "_iv", "_fp")                                             # documented cross-links set in mpmath/__init__.py
 CLASS_LEVEL_OK = {("SpecialFunctions", "defined_functions")}              # registration table filled at import time
+# every place where the package reaches from one context object for another (ctx._mp / ctx._fp / ctx._iv), found by
+# ctx_ops.link_sites() in the source of the tree under test, must be EXECUTED by an entry of the function table from a
+# context of another kind (measured by the probe on every run) — or be classified here
+LINK_SITE_EXEMPT = {
+    "ctx_mp.py:clone": "wiring: copies the parent's _fp/_iv links to the new context, calls nothing through them",
+}
 
 CORPUS = [
     "cl:0 sp:3:100 ev:3:coulombc sp:3:20 ev:0:coulombc",
@@ -120,15 +137,51 @@ def _group_of(stmts, k, a, b):
         return ("clone-attr", f)
     if a[0] == "v" and b[0] == "v" and len(a[1]) == 3 and len(b[1]) == 3 and a[1][0] == b[1][0] and a[1][2] == b[1][2]:
         return ("owner", f)        # same number, but an instance of ANOTHER context's class
+    ta = a[1] if a[0] == "exc" else a[0]
+    tb = b[1] if b[0] == "exc" else b[0]
+    if ta != tb:
+        return ("value:%s/%s" % (ta, tb), f)   # different OUTCOME (an exception against a value): decided separately
     return ("value", f)
 
 
 def run(ctx):
+    import time
     res = {"coverage": {}, "failing_inputs": [], "disagreements": [], "broken": []}
+    phase, t_ph = {}, [time.time()]
+
+    def lap(name):
+        phase[name] = round(phase.get(name, 0) + time.time() - t_ph[0], 1)
+        t_ph[0] = time.time()
     st, fails, broken, links = _structure(res)
     res["failing_inputs"] += fails
     res["broken"] += broken
+    lap("structure")
 
+    # measured interaction classes: cross-link lines executed / private state written, per table entry and kind
+    sites, table = ctx_ops.probe()
+    link_cov = ctx_ops.cross_link_coverage(sites, table)
+    unprobed = sorted("%s.%s" % (k, f) for f in table for k, a in table[f].items() if a is None or a["out"] == "timeout")
+    unresolved = sorted({u for f in table for a in table[f].values() if a for u in a.get("unresolved", [])})
+    for u in unresolved:
+        res["broken"].append(("link site " + u, "the code object of a function that dereferences a cross-link was not found; "
+                              "its lines cannot be measured"))
+    for key, by in sorted(link_cov.items()):
+        rel, fn, line, link = key.split(":")
+        if not by and "%s:%s" % (rel, fn) not in LINK_SITE_EXEMPT and not unprobed:     # (a probe without result: undecided)
+            res["broken"].append(("link site " + key, "%s line %s (%s) reaches for ctx.%s and no entry of ctx_ops.FUNS executes "
+                                  "that line from a context of another kind: add a table entry with arguments that reach it, "
+                                  "or classify it in LINK_SITE_EXEMPT" % (rel, line, fn, link)))
+
+    lap("probe")
+    # T1 tie of MpModel/WorldPC.lean: a clone owns EMPTY private caches, whatever its parent has computed
+    writers = sorted(f for f in table if ctx_ops.FUNS[f][0] != "slow" and table[f].get("mp") and table[f]["mp"]["touched"])
+    cp = ctx_ops.call_worker({"mode": "clone_private", "fnames": writers, "prec": 90})
+    if cp is None:
+        raise InfraError("clone_private worker timed out")
+    for label in ("clone_differs", "clone_of_clone_differs", "parent_written_by_clone"):
+        if cp[label]:
+            res["disagreements"].append({"name": "T1:worldpc.clone_private", "op": "worldpc", "line": "sp:0:90 " + " ".join("ev:0:" + f for f in writers) + " cl:0 cl:3",
+                                         "impl": {label: cp[label]}, "model": "clone_private_empty: the clone's private caches are SemP.empty; no existing context is written"})
     n = 20 if ctx.quick else 1500
     g = ctx_ops.ProgGen(ctx.seed)
     programs = [c.split() for c in CORPUS]
@@ -140,6 +193,13 @@ def run(ctx):
     n_corpus = len(programs)
     for _ in range(n):
         programs.append(g.program(36 if ctx.quick else g.r.randint(10, 40)))
+    # systematic families (own PRNG stream: the random programs above are the same with or without them)
+    sg = ctx_ops.SysGen(ctx.seed * 7919 + 1)
+    n_sys = 0
+    for rep in range(1 if ctx.quick else 12):
+        sysp = sg.link_programs(table, sites) + sg.history_programs(table)
+        n_sys += len(sysp)
+        programs[n_corpus:n_corpus] = sysp
 
     checked = compared = undecided = prog_undecided = 0
     nontrivial = set()
@@ -171,10 +231,20 @@ def run(ctx):
             for k, a, b in r["value_mismatch"]:
                 groups.setdefault(_group_of(p, k, a, b), []).append((p, k, a, b))
 
+    lap("programs")
     # decide each group on its first member: projection reference, then minimisation in fresh processes
-    rounds = 2 if ctx.quick else 4
+    rounds_all = 2 if ctx.quick else 4
+    outcome_sites = {}     # (outcome signature, site) -> the failing input already decided for it
     for (kind, f), members in sorted(groups.items()):
-        p, k, a, b = min(members, key=lambda m: m[1])      # the member whose failing prefix is shortest
+        members = sorted(members, key=lambda m: m[1])       # shortest failing prefix first
+        p, k, a, b = members[0]
+        # an entry that takes seconds per call gets one removal round in the quick tier
+        rounds = 1 if (ctx.quick and f in ctx_ops.FUNS and ctx_ops.FUNS[f][0] == "slow") else rounds_all
+        if kind.startswith("value:") and (kind, ctx_ops.FUNS[f][1]) in outcome_sites:
+            # the same change of OUTCOME (exception against value) at the same site, through another table entry
+            fi = outcome_sites[(kind, ctx_ops.FUNS[f][1])]
+            fi["input"].setdefault("same_outcome_through", []).append({"function": f, "program": " ".join(p[:k + 1]), "count": len(members)})
+            continue
         if kind == "settings":
             def pred(q, r):
                 return bool(r["settings_leaks"])
@@ -182,12 +252,27 @@ def run(ctx):
             res["failing_inputs"].append({"site": "ctx.settings", "what": "statement %s changed the settings of another context: observed %s, predicted %s" % (p[k], a, b),
                                           "input": {"program": " ".join(small), "count": len(members)}})
             continue
-        if kind == "value":
-            model = ctx_ops.ask_model([p])[0]
-            pr = ctx_ops.projection_reference(p, model, k)
-            if pr is not None and pr == a:
-                history_dep.append({"function": f, "program": " ".join(p[:k + 1]), "observed": a, "reference": b, "count": len(members)})
+        if kind.startswith("value"):
+            # a difference explained by the evaluating context's OWN cache history is not a leak; the members of a group
+            # need not share their explanation, so several are tried (distinct programs) before the group is dismissed
+            unexplained = None
+            tried = set()
+            for mp_, mk, ma, mb in members:
+                if id(mp_) in tried:
+                    continue
+                if len(tried) >= (4 if ctx.quick else 10):
+                    break
+                tried.add(id(mp_))
+                model = ctx_ops.ask_model([mp_])[0]
+                pr = ctx_ops.projection_reference(mp_, model, mk)
+                if pr is not None and pr == ma:
+                    history_dep.append({"function": f, "program": " ".join(mp_[:mk + 1]), "observed": ma, "reference": mb, "count": len(members)})
+                    continue
+                unexplained = (mp_, mk, ma, mb)
+                break
+            if unexplained is None:
                 continue
+            p, k, a, b = unexplained
 
         def pred(q, r, f=f, kind=kind):
             return any(_group_of(q, kk, aa, bb) == (kind, f) for kk, aa, bb in r["value_mismatch"])
@@ -216,13 +301,20 @@ def run(ctx):
         res["failing_inputs"].append({"site": site, "what": what,
                                       "input": {"program": " ".join(small), "function": f, "observed": obs, "reference": ref,
                                                 "count": len(members)}})
+        if kind.startswith("value:"):
+            outcome_sites[(kind, site)] = res["failing_inputs"][-1]
 
+    lap("decide")
     res["coverage"] = {
+        "phase_seconds": phase,
         "evaluations": checked + compared,
         "distinct_nontrivial": len(nontrivial),
         "rule": "random interleaved programs over mp, iv, fp and up to four clones (statements: set prec / dps / rounding / "
                 "trap_complex / pretty, default(), clone(), and computations from a table of %d functions; 3-4 functions per "
-                "program so that the same function meets several contexts and precisions); after EVERY statement the settings of "
+                "program so that the same function meets several contexts and precisions), plus two systematic families built "
+                "from MEASURED classes: every table entry that executes a cross-link line (ctx._mp/_fp/_iv) evaluated from fp, mp "
+                "and a clone while all other contexts hold distinct non-default settings, and every entry that writes "
+                "per-context state run as parent-evaluates / clone / parent-changes-precision / clone-evaluates; after EVERY statement the settings of "
                 "EVERY context are compared with the Lean model's prediction, and every computed value is compared with a "
                 "forked pristine single-context process at the predicted settings; a case (statement, settings of all contexts) "
                 "is non-trivial when at least two contexts have different settings at that point" % len(ctx_ops.FUNS),
@@ -234,6 +326,16 @@ def run(ctx):
         "undecided": undecided + prog_undecided,
         "undecided_detail": {"evaluations_timed_out": undecided, "programs_timed_out": prog_undecided},
         "input_distribution": g.hist,
+        "systematic_programs": n_sys,
+        "systematic_distribution": sg.hist,
+        "cross_link_sites": {k: (v[:6] if v else "EXEMPT: " + LINK_SITE_EXEMPT.get(":".join(k.split(":")[:2]), "NOT COVERED"))
+                             for k, v in sorted(link_cov.items())},
+        "private_state_written_by": {f: table[f]["mp"]["touched"] for f in sorted(table)
+                                     if table[f].get("mp") and table[f]["mp"]["touched"]},
+        "probe_no_result": unprobed,
+        "clone_private_state": {"parent_evaluated": writers, "parent_private_state_nonempty": cp["parent_nonempty"],
+                                "clone_differs_from_new_context": cp["clone_differs"],
+                                "clone_of_clone_differs": cp["clone_of_clone_differs"]},
         "live_structure": {"contexts": st["contexts"], "distinct_precision_cells": len({v for v in st["cells"].values() if v}),
                            "cross_links": links, "mutable_defaults": st["mutable_defaults"],
                            "clone_rounding_witness": st["clone_rounding_witness"]},
